@@ -449,7 +449,8 @@ fn random_limit(rng: &mut Rng, p: &Pos, budget: u8, l: &mut Local) -> Limit {
     match rng.below(20) {
         0..=9 => {
             let max = if men <= 5 { budget + 3 } else if men <= 10 { budget + 1 } else { budget };
-            Limit::Depth(1 + rng.below(max as u64) as u8)
+            // (now and then the lowest limit there is: depth 0 - no iteration may be reported at all)
+            if rng.chance(1, 25) { Limit::Depth(0) } else { Limit::Depth(1 + rng.below(max as u64) as u8) }
         }
         10 => {
             // small depth cap, roomy time: the depth cap must be what ends the search
